@@ -103,6 +103,12 @@ def tasks(tier, seed, selftest=False):
     for sk in (("skipall", "everyseeds"), ("succ", "skipall", "everyseeds"), ("skiprem", "everyseeds"), ("fmin", "everyseeds")):
         S.append(dict(family="U2", skeleton=sk, timebox=15 if q else 600, tag="cfg", params={"cfg": True}))
         S.append(dict(family="P:SW2+SW2", skeleton=sk, timebox=15 if q else 600, tag="cfg", params={"cfg": True}))
+    # attractor data that exists BEFORE the skip (a query on a stub, then reclaim / pickle): the skip must not keep it
+    for sk in (("succ", "seeds", "reclaim", "skiprem", "everyseeds"), ("succ", "sets", "skipall", "everyseeds"), ("succ", "seeds", "pickle", "skiprem", "everyseeds"),
+               ("seeds", "reclaim", "fmin", "everyseeds")):
+        S.append(dict(family="U2", skeleton=sk, timebox=8 if q else 600))
+        S.append(dict(family="D3", skeleton=sk, timebox=8 if q else 600))
+        S.append(dict(family="P:SW2+SW2", skeleton=sk, timebox=10 if q else 600))
     S.append(dict(family="U2", skeleton=("skiprem", "everyseeds"), timebox=60))
     S.append(dict(family="D3", skeleton=("skiprem", "everyseeds"), timebox=20 if q else 900))
     if not q:
